@@ -100,12 +100,13 @@ def own_continue(body):
 
 
 class FunctionTranslator:
-    def __init__(self, fn, where, scope=None):
+    def __init__(self, fn, where, scope=None, options=None):
         """scope: the statements that are going to be translated when only a marked block of the function is (the scan for
         constructs without a counterpart then looks at these statements only; names and aliasing are still those of the
-        whole function)"""
+        whole function).  options: the unit's "options" (see UNIT_OPTIONS); absent = the historical rendering"""
         self.fn = fn
         self.where = where
+        self.options = options or {}
         a = fn.args
         if a.vararg or a.posonlyargs:
             raise Unsupported(f"{where}: *args / positional-only parameters")
@@ -118,14 +119,161 @@ class FunctionTranslator:
         for top in ([fn] if scope is None else scope):
             for n in ast.walk(top):
                 if isinstance(n, (ast.FunctionDef, ast.AsyncFunctionDef, ast.ClassDef)) and n is not fn:
+                    if isinstance(n, ast.FunctionDef) and self.plain_local_function(n):
+                        continue     # `def helper(..)` without captured locals: see stmt(); its calls go to [ext]
                     raise Unsupported(f"{where}: nested function / class at line {n.lineno}")
-                if isinstance(n, (ast.While, ast.With, ast.AsyncWith, ast.AsyncFor, ast.Global, ast.Nonlocal, ast.Await,
-                                  ast.SetComp, ast.DictComp, ast.GeneratorExp, ast.NamedExpr,
+                # (ast.With: one item `with e as name` is SWith, anything else is rejected by stmt())
+                if isinstance(n, (ast.While, ast.AsyncWith, ast.AsyncFor, ast.Global, ast.Nonlocal, ast.Await,
+                                  ast.SetComp, ast.DictComp, ast.NamedExpr,
                                   ast.Import, ast.ImportFrom, ast.Match, ast.YieldFrom)):
                     raise Unsupported(f"{where}: {type(n).__name__} at line {getattr(n, 'lineno', '?')}")
+        # generator expressions: only as THE argument of a builtin that consumes it on the spot (see genexp())
+        self.ok_genexps = self.consumed_genexps(fn)
+        for top in ([fn] if scope is None else scope):
+            for n in ast.walk(top):
+                if isinstance(n, ast.GeneratorExp) and id(n) not in self.ok_genexps and id(n) not in self.lazy_genexps(fn):
+                    raise Unsupported(f"{where}: GeneratorExp at line {getattr(n, 'lineno', '?')}")
         self.check_aliasing()
         self.tmp = 0
         self.loop_depth = 0      # number of enclosing SForC loops (a `continue` is only translated inside one)
+
+    # -- generator expressions ------------------------------------------------------------
+    # f(elt for x in it if c) with f one of these builtins: the generator object is created and consumed by f before
+    # anything else can look at it, so it is rendered as the LIST of its items, tagged for the unit's [ext]:
+    #   ECall "$genexp" [EListComp elt x names it c] []        ("$genexp" [l] = l: the items the generator produces)
+    # Eager and lazy evaluation of the items differ only (a) when the consumer stops early - all / any: their item and
+    # condition must then be a test over names and constants, which neither raises nor has an effect - or (b) when both an
+    # item's evaluation and the consumer's own work on an EARLIER item would raise (which exception comes first).
+    GENEXP_CONSUMERS = {"all", "any", "sum", "max", "min", "sorted", "list", "tuple", "set", "dict"}
+
+    def consumed_genexps(self, fn):
+        ok = set()
+        for n in ast.walk(fn):
+            if isinstance(n, ast.Call) and isinstance(n.func, ast.Name) and n.func.id in self.GENEXP_CONSUMERS \
+                    and n.func.id not in self.locals and len(n.args) == 1 and isinstance(n.args[0], ast.GeneratorExp) \
+                    and not n.keywords:
+                g = n.args[0]
+                if n.func.id in ("all", "any") and not all(
+                        self.simple_test(t) for t in [g.elt] + [c for gen in g.generators for c in gen.ifs]):
+                    continue
+                ok.add(id(g))
+        return ok
+
+    def lazy_genexps(self, fn):
+        """all(elt for x in it if c) / any(..) whose item is NOT a simple test (it may raise: a format, a subscript): eager
+        evaluation would not be Python's, so the call is rendered node for node as EGenCall, whose interpreter clause
+        consumes the generator lazily and stops at the first deciding item (Interp.gen_step) -> ids of these generators"""
+        out = set()
+        for n in ast.walk(fn):
+            if isinstance(n, ast.Call) and isinstance(n.func, ast.Name) and n.func.id in ("all", "any") \
+                    and n.func.id not in self.locals and len(n.args) == 1 and isinstance(n.args[0], ast.GeneratorExp) \
+                    and not n.keywords and id(n.args[0]) not in self.ok_genexps:
+                out.add(id(n.args[0]))
+        return out
+
+    def lazy_call(self, e):
+        """the EGenCall rendering of a call accepted by lazy_genexps"""
+        g0 = e.args[0]
+        if len(g0.generators) != 1 or g0.generators[0].is_async or len(g0.generators[0].ifs) > 1:
+            raise Unsupported(f"{self.where}: generator with several generators / conditions at line {e.lineno}")
+        g = g0.generators[0]
+        if isinstance(g.target, ast.Name):
+            x, names = g.target.id, []
+        elif isinstance(g.target, ast.Tuple) and all(isinstance(el, ast.Name) for el in g.target.elts):
+            x, names = self.fresh(), [el.id for el in g.target.elts]
+        else:
+            raise Unsupported(f"{self.where}: generator target at line {e.lineno}")
+        cond = self.expr(g.ifs[0]) if g.ifs else "(EConst (VBool true))"
+        return (f"(EGenCall {cstr(e.func.id)} {self.expr(g0.elt)} {cstr(x)} {clist([cstr(n) for n in names])} "
+                f"{self.expr(g.iter)} {cond})")
+
+    def plain_local_function(self, n):
+        """`def helper(params): ...` nested in the translated function, usable as a call target given meaning by the unit's
+        [ext] (like a method of self): no decorators / defaults / *args, its name is bound nowhere else and used only as the
+        function of a call, and it reads no local of the enclosing function (no closure capture: the call depends on its
+        arguments only).  The unit translates the helper itself as a function of its own ("outer.helper")."""
+        a = n.args
+        if n.decorator_list or a.defaults or a.kw_defaults or a.vararg or a.kwarg or a.posonlyargs or a.kwonlyargs:
+            return False
+        own = {x.arg for x in a.args}
+        for m in ast.walk(n):
+            if isinstance(m, ast.Name) and isinstance(m.ctx, (ast.Store, ast.Del)):
+                own.add(m.id)
+            if isinstance(m, (ast.FunctionDef, ast.AsyncFunctionDef, ast.ClassDef, ast.Lambda, ast.Global, ast.Nonlocal)) \
+                    and m is not n:
+                return False
+        enclosing = set(self.params) | ({self.kwargs_name} if self.kwargs_name else set())
+        inner = {id(m) for m in ast.walk(n)}
+        for m in ast.walk(self.fn):
+            if isinstance(m, ast.Name) and isinstance(m.ctx, (ast.Store, ast.Del)) and id(m) not in inner:
+                enclosing.add(m.id)
+        for m in ast.walk(n):
+            if isinstance(m, ast.Name) and isinstance(m.ctx, ast.Load) and m.id not in own and m.id in enclosing:
+                return False     # reads a variable of the enclosing function
+        if n.name in enclosing or n.name in own:
+            return False
+        calls = {id(c.func) for c in ast.walk(self.fn) if isinstance(c, ast.Call)}
+        for m in ast.walk(self.fn):
+            if isinstance(m, ast.Name) and m.id == n.name and id(m) not in calls:
+                return False     # the function is used as a value
+            if isinstance(m, (ast.FunctionDef, ast.AsyncFunctionDef, ast.ClassDef)) and m is not n and m is not self.fn \
+                    and m.name == n.name:
+                return False
+        return True
+
+    @staticmethod
+    def simple_test(node):
+        """a test built from names, constants, comparisons, not / and / or: evaluating it neither raises nor has an effect
+        (in the subset: an unbound name is Stuck, a comparison the subset has no answer for goes to [ext])"""
+        return all(isinstance(n, (ast.Name, ast.Constant, ast.Compare, ast.BoolOp, ast.UnaryOp, ast.Not, ast.And, ast.Or,
+                                  ast.cmpop, ast.Load)) for n in ast.walk(node))
+
+    def alias_reaches_mutation(self, x):
+        """flow refinement of the aliasing restriction: can a statement that binds the name x to (part of) another object
+        be followed, on some path, by a statement that mutates through x ?  Not when, for every such pair (B, M), M stands
+        before B in a common statement list or the two stand in different branches of one `if`, and no loop encloses both
+        (a later iteration would bring M after B).  Everything else counts as reaching."""
+        pos = {}
+
+        def walk(owner, field, stmts, prefix):
+            for i, s in enumerate(stmts):
+                p = prefix + [(owner, field, i)]
+                pos[id(s)] = p
+                for fld in ("body", "orelse", "finalbody"):
+                    sub = getattr(s, fld, None)
+                    if isinstance(sub, list) and sub and isinstance(sub[0], ast.stmt):
+                        walk(s, fld, sub, p)
+                for hi, h in enumerate(getattr(s, "handlers", []) or []):
+                    walk(s, "handler%d" % hi, h.body, p)
+        walk(self.fn, "body", self.fn.body, [])
+        binds, muts = [], []
+        for n in ast.walk(self.fn):
+            if isinstance(n, ast.Assign) and any(isinstance(t, ast.Name) and t.id == x for t in n.targets):
+                v = n.value
+                if isinstance(v, (ast.Name, ast.Attribute, ast.Subscript)) or (
+                        isinstance(v, ast.Call) and isinstance(v.func, ast.Attribute) and v.func.attr in ("setdefault", "get")):
+                    binds.append(n)
+            ts = n.targets if isinstance(n, (ast.Assign, ast.Delete)) else \
+                [n.target] if isinstance(n, (ast.AugAssign, ast.AnnAssign)) else []
+            if any(isinstance(t, (ast.Attribute, ast.Subscript)) and root_name(t) == x for t in ts):
+                muts.append(n)
+            if isinstance(n, ast.Expr) and isinstance(n.value, ast.Call) and isinstance(n.value.func, ast.Attribute) \
+                    and n.value.func.attr in MUTATING_METHODS and root_name(n.value.func.value) == x:
+                muts.append(n)
+
+        def reaches(b, m):
+            pb, pm = pos.get(id(b)), pos.get(id(m))
+            if pb is None or pm is None:
+                return True
+            for (ob, fb, ib), (om, fm, im) in zip(pb, pm):
+                if isinstance(ob, (ast.For, ast.While, ast.AsyncFor)):
+                    return True          # both inside one loop
+                if fb != fm:
+                    return not isinstance(ob, ast.If)     # the two branches of an `if` exclude each other
+                if ib != im:
+                    return ib < im
+            return True                  # one statement contains the other
+        return any(reaches(b, m) for b in binds for m in muts)
 
     # -- aliasing restriction -----------------------------------------------------------
     def check_aliasing(self):
@@ -169,7 +317,7 @@ class FunctionTranslator:
         for x, src in aliases.items():
             if x in place:
                 continue     # rendered as the place d[k] itself (see seq)
-            if x in mutated and x not in loop_refs:
+            if x in mutated and x not in loop_refs and self.alias_reaches_mutation(x):
                 raise Unsupported(f"{self.where}: '{x}' aliases part of '{src}' and is mutated in place")
             if src in deep and src != "self":
                 raise Unsupported(f"{self.where}: '{src}' is mutated below an alias held by '{x}'")
@@ -211,6 +359,13 @@ class FunctionTranslator:
             f = Fraction(v)
             return f"(EConst (VQ ({f.numerator} # {f.denominator})%Q))"
         if isinstance(v, str):
+            if self.options.get("exact_strings"):
+                # unit option: the literal byte for byte (printable ASCII and the line break, which a Coq string literal
+                # holds as it is); cstr() prints every other character as "?" - a unit that looks at the text of its
+                # literals cannot use that
+                if any(not (32 <= ord(ch) <= 126 or ch == "\n") for ch in v):
+                    raise Unsupported(f"{self.where}: string literal outside printable ASCII at line {node.lineno}")
+                return '(EConst (VStr "' + v.replace('"', '""') + '"))'
             return f"(EConst (VStr {cstr(v)}))"
         if v is Ellipsis:
             return f"(ECall {cstr('$ellipsis')} [] [])"   # the constant `...` (a tagged value, see Interp.builtin)
@@ -302,6 +457,37 @@ class FunctionTranslator:
             cond = self.expr(g.ifs[0]) if g.ifs else "(EConst (VBool true))"
             return (f"(EListComp {self.expr(e.elt)} {cstr(x)} {clist([cstr(n) for n in names])} "
                     f"{self.expr(g.iter)} {cond})")
+        if isinstance(e, ast.GeneratorExp) and id(e) in self.ok_genexps:
+            # the argument of all / sum / sorted / dict / ...: the list of the generator's items, tagged (see GENEXP_CONSUMERS)
+            if len(e.generators) != 1 or e.generators[0].is_async or len(e.generators[0].ifs) > 1:
+                raise Unsupported(f"{self.where}: generator with several generators / conditions at line {e.lineno}")
+            g = e.generators[0]
+            if isinstance(g.target, ast.Name):
+                x, names = g.target.id, []
+            elif isinstance(g.target, ast.Tuple) and all(isinstance(el, ast.Name) for el in g.target.elts):
+                x, names = self.fresh(), [el.id for el in g.target.elts]
+            else:
+                raise Unsupported(f"{self.where}: generator target at line {e.lineno}")
+            cond = self.expr(g.ifs[0]) if g.ifs else "(EConst (VBool true))"
+            return (f"(ECall {cstr('$genexp')} [(EListComp {self.expr(e.elt)} {cstr(x)} {clist([cstr(n) for n in names])} "
+                    f"{self.expr(g.iter)} {cond})] [])")
+        if isinstance(e, ast.JoinedStr) and self.options.get("fstring_parts"):
+            # unit option: the f-string node for node.  JoinedStr(values) -> ECall "$fstr" [part; ...] (the concatenation
+            # of its parts); a literal part is its constant; FormattedValue(value, conversion, format_spec) ->
+            # ECall "$format" [value; conversion (-1: none, 115 / 114 / 97: !s !r !a); spec] with spec the format_spec's own
+            # "$fstr" (None when absent): the value is formatted as soon as it and its spec have been evaluated, before the
+            # next part is looked at - Python's order
+            parts = []
+            for v in e.values:
+                if isinstance(v, ast.Constant) and isinstance(v.value, str):
+                    parts.append(self.const(v.value, v))
+                elif isinstance(v, ast.FormattedValue):
+                    spec = self.expr(v.format_spec) if v.format_spec is not None else "(EConst VNone)"
+                    parts.append(f"(ECall {cstr('$format')} [{self.expr(v.value)}; (EConst (VInt ({v.conversion})%Z)); "
+                                 f"{spec}] [])")
+                else:
+                    raise Unsupported(f"{self.where}: f-string part {type(v).__name__} at line {e.lineno}")
+            return f"(ECall {cstr('$fstr')} {clist(parts)} [])"
         if isinstance(e, ast.JoinedStr):
             parts = [self.expr(v.value) for v in e.values if isinstance(v, ast.FormattedValue)]
             return f"(ECall {cstr('$fstring')} {clist(parts)} [])"
@@ -313,6 +499,21 @@ class FunctionTranslator:
         f = e.func
         if isinstance(f, ast.Name) and f.id == "sorted" and "sorted" not in self.locals:
             # sorted(e) / sorted(e, key=lambda x: k)  ->  ESorted e x k   (node for node; the lambda is not a value)
+            if len(e.args) == 1 and isinstance(e.args[0], ast.Name) and e.args[0].id in self.locals \
+                    and sorted(k.arg for k in e.keywords) == ["key", "reverse"]:
+                # sorted(s, key=lambda x: k, reverse=r) with s a plain local name: ESorted has no `reverse`; the unit's
+                # [ext] is asked, by the protocol ESorted itself uses for keys outside the subset's numbers:
+                #   "$sorted" [keys; items] + the keyword reverse=r, the keys being [k for x in s] (x local to the
+                #   comprehension, as the lambda's parameter is; s is a name, so reading it twice is reading it once)
+                lam = [k.value for k in e.keywords if k.arg == "key"][0]
+                rev = [k.value for k in e.keywords if k.arg == "reverse"][0]
+                if not (isinstance(lam, ast.Lambda) and len(lam.args.args) == 1 and not lam.args.defaults
+                        and not lam.args.vararg and not lam.args.kwarg and not lam.args.kwonlyargs):
+                    raise Unsupported(f"{self.where}: sorted() key is not a one-argument lambda at line {e.lineno}")
+                s_ = self.expr(e.args[0])
+                keys = (f"(EListComp {self.expr(lam.body)} {cstr(lam.args.args[0].arg)} [] {s_} "
+                        f"(EConst (VBool true)))")
+                return f"(ECall {cstr('$sorted')} [{keys}; {s_}] [({cstr('reverse')}, {self.expr(rev)})])"
             if len(e.args) != 1 or isinstance(e.args[0], ast.Starred) or any(k.arg != "key" for k in e.keywords):
                 raise Unsupported(f"{self.where}: sorted() with these arguments at line {e.lineno}")
             if not e.keywords:
@@ -322,6 +523,8 @@ class FunctionTranslator:
                     and not lam.args.vararg and not lam.args.kwarg and not lam.args.kwonlyargs):
                 raise Unsupported(f"{self.where}: sorted() key is not a one-argument lambda at line {e.lineno}")
             return f"(ESorted {self.expr(e.args[0])} {cstr(lam.args.args[0].arg)} {self.expr(lam.body)})"
+        if len(e.args) == 1 and isinstance(e.args[0], ast.GeneratorExp) and id(e.args[0]) in self.lazy_genexps(self.fn):
+            return self.lazy_call(e)      # all(..) / any(..) over items that may raise: EGenCall (lazy, stops early)
         # f(*x): node for node EStar (spliced by Interp's argument evaluation); a Starred anywhere else has no
         # case in expr() and is rejected there
         args = clist([f"(EStar {self.expr(a.value)})" if isinstance(a, ast.Starred) else self.expr(a) for a in e.args])
@@ -446,6 +649,9 @@ class FunctionTranslator:
                 # x.item() (no arguments): the Python number held by a one-element tensor, read only for the text
                 ok = (isinstance(n.func, ast.Attribute) and n.func.attr == "format") or \
                      (isinstance(n.func, ast.Attribute) and n.func.attr == "item" and not n.args and not n.keywords) or \
+                     (isinstance(n.func, ast.Attribute) and n.func.attr == "size" and not n.keywords) or \
+                     (isinstance(n.func, ast.Attribute) and n.func.attr in ("size", "dim") and not n.keywords and
+                      all(isinstance(a, ast.Constant) for a in n.args)) or \
                      (d is not None and d[-1] in ("sorted", "str", "repr", "format", "len", "type"))
                 if not ok:
                     return False
@@ -537,6 +743,21 @@ class FunctionTranslator:
             if not self.loop_depth:
                 raise Unsupported(f"{self.where}: continue outside a translated for loop at line {s.lineno}")
             return "SContinue"
+        if isinstance(s, ast.With):
+            # with e as x: body  ->  SWith e x body   (one item, bound to a plain name; the context manager protocol is the
+            # unit's [ext]: "$enter" / "$exit", see Interp.exec)
+            if len(s.items) != 1 or not isinstance(s.items[0].optional_vars, ast.Name):
+                raise Unsupported(f"{self.where}: with statement without a single `as name` at line {s.lineno}")
+            if self.loop_depth and own_continue(s.body):
+                raise Unsupported(f"{self.where}: continue inside a with block at line {s.lineno}")
+            return (f"(SWith {self.expr(s.items[0].context_expr)} {cstr(s.items[0].optional_vars.id)}\n"
+                    f" {self.seq(s.body)})")
+        if isinstance(s, ast.FunctionDef):
+            # a local helper function that captures nothing (plain_local_function): the statement only binds its name, which
+            # is used in call position only; those calls are ECall "<name>" and get their meaning from the unit's [ext]
+            if not self.plain_local_function(s):
+                raise Unsupported(f"{self.where}: nested function '{s.name}' at line {s.lineno}")
+            return "SPass"
         if isinstance(s, ast.Delete):
             if len(s.targets) != 1:
                 raise Unsupported(f"{self.where}: del with several targets at line {s.lineno}")
@@ -563,6 +784,14 @@ class FunctionTranslator:
         second = f"(SExpr (EMeth (ESub {d} {k}) {cstr(f.attr)} {clist([self.expr(a) for a in v.args])} []))"
         return f"(SSeq {first}\n {second})"
 
+    def library_call(self, e):
+        """e is syntactically a call of a function of a module (`torch.arange(..)`): dotted name whose root is neither
+        `self` nor a local - the same classification call() uses to name an ECall"""
+        if not (isinstance(e, ast.Call) and isinstance(e.func, ast.Attribute)):
+            return False
+        d = dotted(e.func)
+        return d is not None and d[0] != "self" and d[0] not in self.locals
+
     def fresh(self):
         self.tmp += 1
         return f"$t{self.tmp}"
@@ -571,14 +800,25 @@ class FunctionTranslator:
         """a, b = value   ->   $t = value; a = $t[0]; b = $t[1]   (value is evaluated once)"""
         t = self.fresh()
         parts = [f"(SAssign [TName {cstr(t)}] {self.expr(value)})"]
-        for i, el in enumerate(tgt.elts):
-            if not isinstance(el, ast.Name):
-                raise Unsupported(f"{self.where}: nested unpacking at line {tgt.lineno}")
-            parts.append(f"(SAssign [TName {cstr(el.id)}] (ESub (EName {cstr(t)}) (EConst (VInt ({i})%Z))))")
+        self.unpack_items(tgt, t, parts)
         acc = parts[-1]
         for p in reversed(parts[:-1]):
             acc = f"(SSeq {p} {acc})"
         return acc
+
+    def unpack_items(self, tgt, t, parts):
+        """the components of the value held by the temporary t are bound left to right; a NESTED target
+        `a, (b, c), d = v` is by definition unpacked in turn: $t2 = $t[1]; b = $t2[0]; c = $t2[1] (flat targets: as before)"""
+        for i, el in enumerate(tgt.elts):
+            item = f"(ESub (EName {cstr(t)}) (EConst (VInt ({i})%Z)))"
+            if isinstance(el, ast.Name):
+                parts.append(f"(SAssign [TName {cstr(el.id)}] {item})")
+            elif isinstance(el, (ast.Tuple, ast.List)):
+                t2 = self.fresh()
+                parts.append(f"(SAssign [TName {cstr(t2)}] {item})")
+                self.unpack_items(el, t2, parts)
+            else:
+                raise Unsupported(f"{self.where}: unpacking into {type(el).__name__} at line {tgt.lineno}")
 
     def for_(self, s):
         cont = own_continue(s.body)
@@ -610,7 +850,14 @@ class FunctionTranslator:
                     raise Unsupported(f"{self.where}: continue in a loop that writes its variable back (line {s.lineno})")
                 return (f"(SFor {cstr(i)} (ECall {cstr('range')} [ECall {cstr('len')} [{place}] []] [])\n"
                         f" (SSeq {load} (SSeq {body} {back})))")
-            return f"({con} {cstr(x)} {self.expr(s.iter)}\n {body})"
+            it = self.expr(s.iter)
+            if self.library_call(s.iter):
+                # for x in lib.f(...): the `for` statement calls iter() on its iterable; that call is made explicit where
+                # the iterable is the result of a library function (an object of that library, e.g. a tensor, not a
+                # container of the subset): ECall "iter" - the builtin on lists, the unit's [ext] on anything else.
+                # (No other iterable is touched: every term translated before this clause existed is unchanged.)
+                it = f"(ECall {cstr('iter')} [{it}] [])"
+            return f"({con} {cstr(x)} {it}\n {body})"
         if isinstance(s.target, ast.Tuple) and all(isinstance(el, ast.Name) for el in s.target.elts):
             t = self.fresh()
             back = None
@@ -754,6 +1001,20 @@ def _load_units():
 UNITS = _load_units()
 
 
+def _load_unit_options():
+    """optional "options" object of a unit's JSON file (absent: {} = the historical rendering, byte for byte):
+    "exact_strings": string literals byte for byte (printable ASCII + line break) instead of cstr()'s "?" for the rest;
+    "fstring_parts": f-strings node for node ("$fstr" / "$format") instead of the effect-preserving "$fstring" call"""
+    import json
+    out = {}
+    for f in sorted((Path(__file__).resolve().parent / "units").glob("*.json")):
+        out[f.stem] = json.loads(f.read_text()).get("options", {})
+    return out
+
+
+UNIT_OPTIONS = _load_unit_options()
+
+
 def translate_unit(repo, unit):
     prop, rel, funcs = UNITS[unit]
     path = Path(repo) / rel
@@ -772,7 +1033,7 @@ def translate_unit(repo, unit):
                 stmts = slice_statements(fn, *markers)
                 if stmts is None:
                     raise Unsupported(f"{rel}::{qual}: block markers {markers!r} not found")
-            tr = FunctionTranslator(fn, f"{rel}::{qual}", scope=stmts)
+            tr = FunctionTranslator(fn, f"{rel}::{qual}", scope=stmts, options=UNIT_OPTIONS.get(unit))
             if markers is None:
                 body = tr.body()
             else:
